@@ -19,14 +19,16 @@ MODULE_DEPS = {
     "semaphore": [],
     "group": ["path"],
     "dedupe__c08": ["path", "file"],
+    "lock": ["path"],
+    "dedupe__c20": ["path"],
 }
 
 
-def k(name, fn, cls="proved", tier="quick", t=900, bound=None, note="", replay=None, module=None, contract_ob=None):
+def k(name, fn, cls="proved", tier="quick", t=900, bound=None, note="", replay=None, module=None, contract_ob=None, c_ffi=False):
     if module is None:
         module = "reflink" if "reflink" in name else "dedupe"
     K[name] = dict(fn=fn, cls=cls, tier=tier, t=t, bound=bound, note=note, replay=replay, module=module,
-                   contract_ob=contract_ob)
+                   contract_ob=contract_ob, c_ffi=c_ffi)
 
 
 def modules_for(harnesses):
@@ -55,6 +57,10 @@ k("c18_execute_move_copy", "dedupe::FsCommand::execute [Move, copy] + move_copy"
 k("c18_execute_move_rename_existing", "dedupe::FsCommand::execute [Move, use_rename, target exists]")
 k("c18_execute_move_copy_existing", "dedupe::FsCommand::execute [Move, copy, target exists]")
 
+# ---- lock.rs
+k("c20_file_lock_new", "lock::FileLock::new + fcntl_lock", module="lock", t=600, c_ffi=True)
+for _o in ("granted", "unsupported", "refused"):
+    k("c20_maybe_lock_" + _o, "dedupe::FsCommand::maybe_lock [FileLock::new: %s]" % _o, module="dedupe__c20", t=600)
 # ---- config.rs (kani/config.rs + kani/contracts.toml)
 k("c06_rf_over_contract", "config::GroupConfig::rf_over [function contract]", module="config", t=300, contract_ob="C06.rf_over.contract")
 k("c06_rf_under_contract", "config::GroupConfig::rf_under [function contract]", module="config", t=300, contract_ob="C06.rf_under.contract")
@@ -132,7 +138,7 @@ PROPS = {
         design_ref="DESIGN.md §5 C05",
     ),
     "C20": dict(
-        kani=C20_FAMILY,
+        kani=C20_FAMILY + ["c20_maybe_lock_granted", "c20_maybe_lock_unsupported", "c20_maybe_lock_refused", "c20_file_lock_new"],
         verus=[],
         prefixes=["C20."],
         category="proof",
